@@ -1023,7 +1023,7 @@ def monitors(ctx, exe):
     lines = ["%s leak %d w" % (AREA, n), "%s leak %d r" % (AREA, n),
              "%s sweep %d expire %d" % (AREA, T, 8 if ctx.tier == "quick" else 40),
              "%s sweep %d keep %d" % (AREA, T, 4 if ctx.tier == "quick" else 16),
-             "%s sweep %d mass %d" % (AREA, T, 1500 if ctx.tier == "quick" else 6000)] + ov
+             "%s sweep %d mass %d" % (AREA, T, 3300 if ctx.tier == "quick" else 6000)] + ov
     rc, out, err = vlib.run_impl(exe, lines, timeout=600)
     if rc != 0 or len(out) != len(lines):
         ctx.violation("driver-crash", "monitor driver died: " + err[-500:], dict(case=lines[len(out)] if len(out) < len(lines) else None))
